@@ -252,14 +252,14 @@ def lineEnds : Geom → List Pt
   | .multiLineString ls => (ls.map openEnds).flatten
   | _ => []
 
-/-- the vertices `compute_bounds` ranges over that are not the end of an open line -/
-def jointPts (g : Geom) : List Pt := g.boundPts.filter (fun p => !(lineEnds g).contains p)
-
-/-- per side of the bounds `b` (start time, low frequency, end time, high frequency): the extreme
-    is attained at a vertex that is not an open line end -/
-def offCap (g : Geom) (b : Bounds) : List Bool :=
-  [(jointPts g).any (fun p => decide (p.1 = b.st)), (jointPts g).any (fun p => decide (p.2 = b.lo)),
-   (jointPts g).any (fun p => decide (p.1 = b.en)), (jointPts g).any (fun p => decide (p.2 = b.hi))]
+/-- per side of the bounds `b` (start time, low frequency, end time, high frequency): no end of an
+    open line attains that side's extreme or comes within `μ` buffers of it (`μ = 1/100` in the
+    check: GEOS simplifies its input by 1 % of the distance, so an end that close to the extreme
+    can put its cap there) -- the extreme is then attained at vertices drawn with mitre joins or
+    axis-aligned circles only -/
+def offCap (g : Geom) (b : Bounds) (tb fb μ : Rat) : List Bool :=
+  [!(lineEnds g).any (fun e => decide (e.1 ≤ b.st + μ * tb)), !(lineEnds g).any (fun e => decide (e.2 ≤ b.lo + μ * fb)),
+   !(lineEnds g).any (fun e => decide (b.en - μ * tb ≤ e.1)), !(lineEnds g).any (fun e => decide (b.hi - μ * fb ≤ e.2))]
 
 /-! ### binding of the arguments of a call (positional / keyword / omitted)
 
